@@ -3,7 +3,7 @@
    API half (which exception classes can escape validate()) is decided by enumeration of failure
    causes on the real code - see DESIGN.md. *)
 From Coq Require Import List NArith String Bool.
-From Verif Require Import Gen.T3 Mini.Cli Mini.CliProofs Closure.Worklist Closure.WorklistProofs Gen.T4 Base.Terms Closure.ListCheck Closure.ListCheckProofs Gen.T5.
+From Verif Require Import Gen.T3 Mini.Cli Mini.CliProofs Closure.Worklist Closure.WorklistProofs Gen.T4 Base.Terms Closure.ListCheck Closure.ListCheckProofs Gen.T5 Gen.T6 Mini.Raises Mini.RaisesProofs.
 Import ListNotations.
 Open Scope string_scope.
 
@@ -67,3 +67,24 @@ Example C16_list_check_nonvacuous :
   /\ check check_rdf_lists_prog [(BN 1, BN 2); (BN 2, BN 3); (BN 3, BN 4); (BN 4, BN 3)] = Reject   (* rho shape *)
   /\ check check_rdf_lists_prog [(BN 1, BN 3); (BN 2, BN 3); (BN 3, IRI 9)] = Accept.      (* a shared tail *)
 Proof. repeat split; vm_compute; reflexivity. Qed.
+
+(* The API half, as far as the raise statements themselves go (Tie A, translator/t6.py: every `raise` of every module on
+   the validate() path): each one raises a class of the documented families or re-raises what it caught, is handled in
+   the same function, is the signal of a helper all of whose calls are guarded by a handler for that class, or is one of
+   the listed guards on Python argument types / internal invariants (Mini/Raises.v, internal_guards).  Exceptions raised
+   implicitly by an expression are outside this census: they are searched for by the enumeration of ill-formed inputs. *)
+Theorem C16_raise_census : forall s, In s raise_sites ->
+  documented (s_what s) = true \/ s_caught s = true \/ helper_signal s = true \/ is_guard s = true.
+Proof. exact raise_census. Qed.
+Print Assumptions C16_raise_census.
+
+Theorem C16_helper_calls_guarded : forall c, In c helper_calls -> s_caught c = true \/ fn_is_helper (s_fn c) = true.
+Proof. exact helper_calls_guarded. Qed.
+Print Assumptions C16_helper_calls_guarded.
+
+Example C16_census_nonvacuous :
+  Nat.leb 100 (List.length raise_sites) = true /\ warning_is_caught = true
+  /\ documented "ConstraintLoadError" = true /\ documented "ShapeLoadError" = true /\ documented "RuleLoadError" = true
+  /\ documented "TypeError" = false /\ documented "RuntimeError" = false /\ documented "ConstraintLoadWarning" = false
+  /\ site_ok ("pyshacl/shape.py", "Shape.validate", "TypeError", false, 1%N) = false.
+Proof. vm_compute. repeat split; reflexivity. Qed.
